@@ -122,6 +122,7 @@ class CheckArraySpecs(FuncSpec):
 
 @register
 class ConvertToBytesNumeric(FuncSpec):
+    pure_replay = True
     """convert_to_bytes(size) for numbers: ints pass through iff >= 0 (ValueError otherwise); integral floats are
     converted exactly, non-integral floats are rejected with ValueError."""
 
